@@ -20,6 +20,7 @@ type Ident struct {
 	YSSHCA  bool // KeyID decodes as a YSSHCA KeyID
 	Comment string
 	Expiry  int64 // unix seconds at which the agent drops it (0: never)
+	NoSign  bool  // listed by the upstream agent, but it cannot sign with it
 }
 
 // Validity classes.
@@ -254,7 +255,7 @@ func (s *State) sign(blob string, isCert, ysshca bool, now int64) (int, string) 
 	if i := s.memFind(blob); i >= 0 {
 		m := s.Mem[i]
 		j := s.upFind(m.KeyBlob)
-		has := j >= 0 && !s.UpLocked
+		has := j >= 0 && !s.UpLocked && !s.Up[j].NoSign
 		switch {
 		case !has && m.State == Present:
 			return Err, ""
@@ -276,6 +277,9 @@ func (s *State) sign(blob string, isCert, ysshca bool, now int64) (int, string) 
 		return Err, ""
 	}
 	id := s.Up[j]
+	if id.NoSign {
+		return Err, ""
+	}
 	if id.IsCert && Validity(id.VA, id.VB, now) == Undecided {
 		return Either, id.KeyBlob
 	}
